@@ -95,7 +95,9 @@ type Obs = Vec<Rec>;
 
 fn run_one(progs: &[Vec<Call>], mode: Wall, prefix: &[usize]) -> (Run, Obs) {
     set_wall_clock(Some(wall_at(mode, 0)));
-    let out = e2::block_on_fresh(async {
+    // fine-grained: the clock actor is a background task; letting callers run while it still
+    // has queued work is what puts several requests into its mailbox at once
+    let out = e2::block_on_fresh_fine(async {
         let clock = Clock::new(OWN);
         let log: Rc<RefCell<(u64, Vec<Rec>)>> = Rc::new(RefCell::new((0, Vec::new())));
         let clients: Vec<Option<Client>> = progs
@@ -131,7 +133,7 @@ fn run_one(progs: &[Vec<Call>], mode: Wall, prefix: &[usize]) -> (Run, Obs) {
             })
             .collect();
         let on_step = move |step: usize| set_wall_clock(Some(wall_at(mode, step + 1)));
-        let cfg = DriveCfg { on_step: Some(&on_step), ..DriveCfg::default() };
+        let cfg = DriveCfg { on_step: Some(&on_step), interleave_background: true, ..DriveCfg::default() };
         let run = e2::drive(clients, prefix, &cfg).await;
         let mut obs = log.borrow().1.clone();
         obs.sort_by_key(|r| (r.task, r.idx));
